@@ -157,6 +157,23 @@ func VerifH_C07_pop_context() {
 	verifAssume(st != StatusLive || vhInv(m))
 	m.parent = p
 	m.gcPolicy = ShareGCPolicy
+	// which of its hard limits terminated the child (none unless it was killed)
+	hit := limitKind(nondetByte("chit") & 7)
+	verifAssume(st == StatusKilled || hit == 0)
+	m.limitsHit = hit
+	// the child died of a limit that was only what the parent had left: the
+	// parent is out of that resource too (spec of "a nested context cannot
+	// stop the termination")
+	sub := func(a, b uint64) uint64 {
+		if a >= b {
+			return a - b
+		}
+		return 0
+	}
+	exhausted := st == StatusKilled &&
+		((hit&cpuLimitHit != 0 && p.hardLimits.Cpu > 0 && m.hardLimits.Cpu >= sub(p.hardLimits.Cpu, p.usedResources.Cpu)) ||
+			(hit&memLimitHit != 0 && p.hardLimits.Memory > 0 && m.hardLimits.Memory >= sub(p.hardLimits.Memory, p.usedResources.Memory)) ||
+			(hit&timeLimitHit != 0 && p.hardLimits.Millis > 0 && m.hardLimits.Millis >= sub(p.hardLimits.Millis, p.usedResources.Millis)))
 	cu := m.usedResources
 	pu := p.usedResources
 	pOld := *p
@@ -178,12 +195,29 @@ func VerifH_C07_pop_context() {
 	wouldMem := pOld.trackMem && pOld.hardLimits.Memory != 0 && pu.Memory+cu.Memory >= pOld.hardLimits.Memory
 	if killed {
 		verifReach("pop-kills-parent")
-		verifAssert(wouldCpu || wouldMem, "parent-killed-only-when-over")
-		verifAssert(p.status == StatusKilled, "parent-status-killed")
+		verifAssert(wouldCpu || wouldMem || exhausted, "parent-killed-only-when-over-or-exhausted")
+		// the manager object becomes the parent again before an exhausted parent
+		// is terminated; a charge that crosses the limit terminates the parent
+		// object itself
+		par := p
+		if m.parent == pOld.parent {
+			par = m
+		}
+		verifAssert(par.status == StatusKilled, "parent-status-killed")
+		// the terminated parent still accounts for what the child consumed,
+		// unless adding it is what crossed the limit (the request that kills
+		// is not added): its reported usage is what its own parent is charged
+		if pOld.trackCpu && !wouldCpu {
+			verifAssert(par.usedResources.Cpu == pu.Cpu+cu.Cpu, "killed-parent-accounts-for-child-cpu")
+		}
+		if pOld.trackMem && !wouldMem && !wouldCpu {
+			verifAssert(par.usedResources.Memory == pu.Memory+cu.Memory, "killed-parent-accounts-for-child-memory")
+		}
 		return
 	}
 	verifReach("popped")
 	verifAssert(!wouldCpu && !wouldMem, "over-limit-parent-must-be-killed")
+	verifAssert(!exhausted, "exhausted-parent-must-be-killed")
 	verifAssert(ctx != nil, "ctx-returned")
 	if st == StatusLive {
 		verifAssert(ctx.Status() == StatusDone, "live-child-reported-done")
